@@ -414,10 +414,12 @@ pub fn check_set_state_mutations(set: &SolutionSet) -> Result<(), InvalidSolutio
     }
 
     // Ensure that no more than one mutation per slot is proposed.
+    // A slot is identified by its contract and key, so solutions for the
+    // same contract must not propose mutations for the same key either.
+    let mut mut_keys = HashSet::new();
     for solution in &set.solutions {
-        let mut mut_keys = HashSet::new();
         for mutation in &solution.state_mutations {
-            if !mut_keys.insert(&mutation.key) {
+            if !mut_keys.insert((&solution.predicate_to_solve.contract, &mutation.key)) {
                 return Err(InvalidSetStateMutations::MultipleMutationsForSlot(
                     solution.predicate_to_solve.clone(),
                     mutation.key.clone(),
